@@ -12,6 +12,7 @@ mod runner;
 mod shrink;
 mod structure;
 mod witness;
+mod watch;
 mod world;
 
 use std::process::ExitCode;
@@ -297,7 +298,34 @@ fn cmd_replay(args: &[String]) -> i32 {
         print!("{}", t.replace('\r', ""));
     }
     println!("--- fault plan: {}", serde_json::to_string(&rep.case.plan).unwrap());
-    let found = check::replay_found(&rep);
+    // the run may be one that never comes back: it gets the watchdog's time, not more
+    let (tx, rx) = std::sync::mpsc::channel();
+    {
+        let rep2 = rep.clone();
+        std::thread::Builder::new()
+            .stack_size(256 << 20)
+            .spawn(move || {
+                let _ = tx.send(check::replay_found(&rep2));
+            })
+            .unwrap();
+    }
+    let found = match rx.recv_timeout(watch::limit()) {
+        Ok(f) => f,
+        Err(_) => {
+            println!(
+                "FOUND {} [{}] key=hang: the run never came back within {} s",
+                rep.property,
+                rep.class,
+                watch::limit().as_secs()
+            );
+            if rep.key == "hang" {
+                println!("VIOLATION property={} replay={}", rep.property, path);
+                std::process::exit(1);
+            }
+            println!("not reproduced (the run hangs instead)");
+            std::process::exit(2);
+        }
+    };
     let mut hit = false;
     for f in &found {
         println!("FOUND {} [{:?}] key={}: {}", f.property, f.class, f.key, f.detail);
